@@ -83,8 +83,8 @@ def run_scenario(pid, sc, tier, seed, catalogue, out):
     if sc.get('simulate') and sc['simulate'].get(tier):
         s = sc['simulate'][tier]
         sim = {'spec': 'num=%d' % s['num'], 'depth': s['depth'], 'seed': seed + 1}
-    res = tlcrun.run(mod, cfg_text(depth, True, invs), wd, workers=1, timeout=sc.get('timeout', 1500 if tier == 'quick' else 7200))
-    rec = {'module': mod, 'depth': depth, 'invariants': invs, 'tlc_wall_s': round(res['wall_s'], 1),
+    res = tlcrun.run(mod, cfg_text(depth, True, invs, view=sc.get('view')), wd, workers=1, timeout=sc.get('timeout', 1500 if tier == 'quick' else 7200))
+    rec = {'module': mod, 'depth': depth, 'view': sc.get('view', 'GenView'), 'invariants': invs, 'tlc_wall_s': round(res['wall_s'], 1),
            'states': res['distinct'], 'transitions': res['generated'], 'cmd': res['cmd']}
     add_cases(out, 'model checking', res.get('cases', {}))
     out['scenarios'].append(rec)
